@@ -154,6 +154,23 @@ pub fn payload_from_json(v: &Value) -> Vec<u8> {
     let mut p = Planner::new(key, "payload", 0);
     match jstr(v, "gen") {
         "zeros" => vec![0u8; len],
+        "packets" => {
+            // a sequence of well-formed new-format user-id packets (tag 13), padded with a marker-like tail
+            let mut out = Vec::with_capacity(len + 40);
+            let mut i = 0;
+            while out.len() + 34 <= len {
+                let uid = format!("smuggled {:04} <evil@example.org>", i % 10000);
+                out.push(0xC0 | 13);
+                out.push(uid.len() as u8);
+                out.extend_from_slice(uid.as_bytes());
+                i += 1;
+            }
+            while out.len() < len {
+                out.push(0xCA); // header octet of a marker packet, truncated: harmless filler
+            }
+            out.truncate(len);
+            out
+        }
         "text" => gen_text(&mut p, len),
         "utf8crlf" => gen_utf8_crlf(&mut p, len),
         "crlfmix" => {
